@@ -1,8 +1,87 @@
-(* C05 — Every started request ends with exactly one finish or close notification. *)
+(* C05 — Every started request ends with exactly one finish or close notification.
+   Property theorems only; proofs are in Proofs*.v / SpecFacts.v.
+
+   [run_events parse c es] is the state of the connection machine (Model.v) after the event list [es]
+   (peer bytes in any segmentation, peer EOF, handler continuation, body timeout, close_all_connections),
+   for ANY header-facts function [parse] and ANY configuration [c] (handler behaviour, body_timeout on/off,
+   chunk_size, max_header_size, max_body_size).  [trace] is the sequence of calls made on the message
+   delegates (newest first); [dstate false] runs the protocol automaton of Spec.v over it. *)
 From Coq Require Import String List NArith Arith Bool.
 Import ListNotations.
-From TV Require Import C05.Model C05.Spec C05.Witness.
+From TV Require Import C05.Model C05.Spec C05.SpecFacts C05.Proofs5 C05.Proofs6 C05.Proofs7 C05.Proofs8 C05.Witness.
 
-Theorem C05_witness : rev (trace (run_events w_parse w_cfg w_events)) = [TH 0; TD 0 [97;98]%N; TC 0; TX].
+(* (INV) Along every event list the delegate calls follow  headers data* (finish | on_connection_close)
+   request after request: nothing before headers, nothing after the terminal, no second terminal,
+   the next request's headers only after the previous request's terminal. *)
+Theorem C05_trace_shape :
+  forall parse c es, dstate false (trace (run_events parse c es)) <> DBad.
+Proof. exact trace_never_bad. Qed.
+Print Assumptions C05_trace_shape.
+
+(* ... in counting terms: for every request, finish and on_connection_close together are called at most
+   once (never both, never twice), and only for a request that received headers (exactly once). *)
+Theorem C05_at_most_one_terminal :
+  forall parse c es i,
+    let tr := trace (run_events parse c es) in
+    nfin i tr + nclose i tr <= 1 /\ nfin i tr + nclose i tr <= nhdr i tr /\ nhdr i tr <= 1.
+Proof.
+  intros parse c es i tr.
+  pose proof (trace_never_bad parse c es) as H. fold tr in H.
+  split; [apply accepted_at_most_one; exact H|].
+  rewrite <- nterm_split. apply accepted_terminal_has_headers; exact H.
+Qed.
+Print Assumptions C05_at_most_one_terminal.
+
+(* While request j is being served (headers delivered, no terminal yet) every earlier request has had
+   exactly one terminal. *)
+Theorem C05_earlier_requests_terminated :
+  forall parse c es j i,
+    let tr := trace (run_events parse c es) in
+    dstate false tr = DOpen j -> i < j -> nhdr i tr = 1 /\ nfin i tr + nclose i tr = 1.
+Proof.
+  intros parse c es j i tr E Hlt. destruct (open_counts tr j i E) as [H1 H2].
+  rewrite <- nterm_split, H1, H2.
+  destruct (Nat.ltb_spec i j), (Nat.leb_spec i j); cbn; split; try reflexivity; exfalso; PeanoNat.Nat.order.
+Qed.
+Print Assumptions C05_earlier_requests_terminated.
+
+(* Exactly one: once the request loop of the connection has exited (HTTPServer.on_close ran, the
+   connection left HTTPServer._connections) every request that received headers was told exactly one of
+   finish / on_connection_close -- unless the handler detached the connection (c_h = HDetach), in which
+   case the last request is handed over without a terminal.  (The side condition excludes runs in which
+   the model itself gave up: no facts for a header block, or fuel exhausted.) *)
+Theorem C05_exactly_one_terminal_when_loop_exits :
+  forall parse c es i,
+    let s := run_events parse c es in
+    exited s = true -> (forall w, pc s <> PErr w) -> c_h c <> HDetach ->
+    nhdr i (trace s) = 1 -> nfin i (trace s) + nclose i (trace s) = 1.
+Proof.
+  intros parse c es i s E Hne Hd Hh.
+  destruct (exited_settled parse c es E Hne) as [Hb Ho].
+  apply settled_exactly_one; auto. intros j Ej. apply Hd. exact (Ho j Ej).
+Qed.
+Print Assumptions C05_exactly_one_terminal_when_loop_exits.
+
+(* Regression witness for fix bd9b133: headers, "ab" delivered to a pending data_received, "cdef" buffered,
+   body timeout, the handler continues.  The old code then delivered D"cdef" after the close notification. *)
+Theorem C05_body_timeout_witness :
+  rev (trace (run_events w_parse w_cfg w_events)) = [TH 0; TD 0 [97;98]%N; TC 0; TX].
 Proof. exact witness_trace. Qed.
-Print Assumptions C05_witness.
+Print Assumptions C05_body_timeout_witness.
+
+(* Shutdown, the part that is proved.  FULL STATEMENT WANTED (design): after EServerClose the request loop exits and
+   the connection set is empty, after finitely many handler continuations bounded by a measure of the buffered bytes.
+   PROVED HERE (an invariant of every reachable state, for every event list): a closed stream never leaves the
+   connection coroutine parked on a stream read or on _finish_future -- so after close_all_connections closed the
+   stream the only thing the coroutine can still be waiting for is a Future owned by the handler -- the wait on
+   _finish_future always has the stream close callback installed, and an exited loop has run HTTPServer.on_close.
+   NOT PROVED: that the stream stays closed through [run] (monotonicity), hence the corollary about the state right
+   after EServerClose, and the bound on the number of handler continuations (see NOTES.md). *)
+Theorem C05_shutdown_never_waits_on_closed_stream_partial :
+  forall parse c es,
+    let s := run_events parse c es in
+    (closed (sm s) = true -> match pc s with PWaitHdr | PWaitBody _ | PWaitFin => False | _ => True end) /\
+    (pc s = PWaitFin -> scb (sm s) = true) /\
+    (pc s = PExited -> exited s = true).
+Proof. intros parse c es. exact (run_events_K parse c es). Qed.
+Print Assumptions C05_shutdown_never_waits_on_closed_stream_partial.
